@@ -28,21 +28,31 @@ class Ctx:
         return os.path.join(self.work, name)
 
 
-def _shrink_request(req, still_differs):
-    """Generic shrinking of one request line: drop space-separated items of the last field."""
+def _shrink_request(req, still_differs, budget=80):
+    """Generic shrinking of one request line: drop space-separated items of the last field (delta debugging: halves, quarters,
+    ... single items), within a budget of evaluations -- requests of thousands of tokens must not cost minutes."""
     fields = req.split("\t")
     items = fields[-1].split(" ")
-    changed = True
-    while changed and len(items) > 1:
-        changed = False
-        for i in range(len(items)):
-            cand = items[:i] + items[i + 1:]
-            r = "\t".join(fields[:-1] + [" ".join(cand)])
-            if still_differs(r):
-                items = cand
-                changed = True
+    join = lambda its: "\t".join(fields[:-1] + [" ".join(its)])
+    n = 2
+    while len(items) > 1 and budget > 0:
+        chunk = max(1, len(items) // n)
+        removed = False
+        for i in range(0, len(items), chunk):
+            cand = items[:i] + items[i + chunk:]
+            if not cand:
+                continue
+            budget -= 1
+            if budget < 0:
                 break
-    return "\t".join(fields[:-1] + [" ".join(items)])
+            if still_differs(join(cand)):
+                items, n, removed = cand, max(n - 1, 2), True
+                break
+        if not removed:
+            if chunk == 1:
+                break
+            n = min(len(items), n * 2)
+    return join(items)
 
 
 def differs_one(ctx, req, binary=None):
@@ -158,7 +168,7 @@ def run_requests(ctx, tag, gen):
             except OSError:
                 pass
     ctx.plain_requests = getattr(ctx, "plain_requests", 0) + nplain
-    for d in dis[:3]:
+    for d in sorted(dis, key=lambda d_: len(d_["request"]))[:3]:
         if d["request"].startswith("<"):
             continue
         try:
